@@ -356,4 +356,69 @@ theorem mkSwarm_of_nodup_aux (uris : List Uri) (h : uris.Nodup) : mkSwarm uris =
   have := mkSwarmGo_of_nodup uris 0 [] h (fun u _ => by simp)
   simpa [mkSwarm] using this
 
+/-! ## Histories of calls on one Swarm: what each call does to the persistent state -/
+
+theorem closeLinksGo_spec : ∀ (cfs : List (Uri × Member)) (k : Nat) (mem : Nat → Bool) (tr : List Ev),
+    (∀ i, k ≤ i → i < k + cfs.length → (closeLinksGo cfs k mem tr).1 i = false) ∧
+    (∀ i, i < k → (closeLinksGo cfs k mem tr).1 i = mem i) := by
+  intro cfs
+  induction cfs with
+  | nil => intro k mem tr; exact ⟨fun i h1 h2 => by simp at h2; omega, fun i _ => rfl⟩
+  | cons kv rest ih =>
+    intro k mem tr
+    obtain ⟨u, m⟩ := kv
+    simp only [closeLinksGo]
+    obtain ⟨h1, h2⟩ := ih (k + 1) (upd mem k (if mem k then Gen.C19.scfDisconnectedSets else mem k)) (tr ++ [.closeCall u (mem k)])
+    constructor
+    · intro i hki hi
+      simp only [List.length_cons] at hi
+      by_cases hik : i = k
+      · subst hik
+        rw [h2 i (by omega)]
+        simp only [upd_same, gen_scfDisconnectedSets]
+        cases mem i <;> rfl
+      · exact h1 i (by omega) (by omega)
+    · intro i hi
+      rw [h2 i (by omega), upd_other _ _ _ _ (by omega)]
+
+/-- close_links: every link is closed and the swarm is marked closed -/
+theorem closeLinks_spec (cfs : List (Uri × Member)) (st : SwarmState) :
+    (closeLinks cfs st).1.isOpen = false ∧ ∀ i, i < cfs.length → (closeLinks cfs st).1.mem i = false := by
+  have := (closeLinksGo_spec cfs 0 st.mem []).1
+  refine ⟨gen_closeSetsFlag, fun i hi => ?_⟩
+  simpa [closeLinks] using this i (Nat.zero_le i) (by omega)
+
+/-- a swarm-wide call with a user action changes neither `_is_open` nor any link flag -/
+theorem user_exec_state {cfs : List (Uri × Member)} {kind : Kind} (hk : kind ≠ .openLinks) {d : ArgsDict}
+    {f : Uri → List Arg → Option Err} {st : SwarmState} {sch : List Nat} {c : Cfg}
+    (h : exec ⟨cfs, kind, d, .user f⟩ st sch = some c) : c.swarmOpen = st.isOpen ∧ ∀ i, c.mem i = st.mem i := by
+  have := run_invariant (machine ⟨cfs, kind, d, .user f⟩)
+    (fun c => ClKind ⟨cfs, kind, d, .user f⟩ c ∧ c.swarmOpen = st.isOpen ∧ ∀ i, c.mem i = st.mem i) (by
+    intro c t c' I hs
+    refine ⟨clKind_step _ c t c' I.1 hs, ?_⟩
+    rcases step_cases hs with ⟨_, hm⟩ | ⟨i, _, ht⟩
+    · cases hm with
+      | doneOpenOk hm hk' => exact absurd hk' hk
+      | closeOne k x u m hm hk' => exact absurd (I.1 k x hm) hk
+      | closeEnd k x hm hk' => exact absurd (I.1 k x hm) hk
+      | _ => exact I.2
+    · cases ht with
+      | ret u m a o hk' ha hfin =>
+        simp only [Action.finish, Prod.mk.injEq] at hfin
+        refine ⟨I.2.1, fun j => ?_⟩
+        simp only [upd]; split
+        · next heq => subst heq; rw [← hfin.2]; exact I.2.2 j
+        · exact I.2.2 j
+      | raise u m a e o hk' ha hfin =>
+        simp only [Action.finish, Prod.mk.injEq] at hfin
+        refine ⟨I.2.1, fun j => ?_⟩
+        simp only [upd]; split
+        · next heq => subst heq; rw [← hfin.2]; exact I.2.2 j
+        · exact I.2.2 j
+      | call u m a hk' ha => exact I.2
+      | flag u m e hk' ha => exact I.2
+      | append u m e hk' ha => exact I.2)
+    sch (init st) c ⟨clKind_init _ st, rfl, fun _ => rfl⟩ h
+  exact this.2
+
 end CfVerif.C19
